@@ -16,6 +16,7 @@ package kubernetes
 
 import (
 	"fmt"
+	"math/bits"
 
 	"github.com/containers/nri-plugins/pkg/sysfs"
 )
@@ -105,7 +106,16 @@ func QuotaToMilliCPU(quota, period int64) int64 {
 
 // MemReqToOomAdj estimates OOM score adjustment based on memory request.
 func MemReqToOomAdj(memRequest int64) int64 {
-	return 1000 - (1000*memRequest)/memCapacity
+	if memRequest < 0 || memCapacity <= 0 {
+		return 1000 - (1000*memRequest)/memCapacity
+	}
+	// 1000*memRequest does not fit 64 bits for requests above 8 PiB
+	hi, lo := bits.Mul64(uint64(memRequest), 1000)
+	if hi >= uint64(memCapacity) {
+		return 1000 - (1000*memRequest)/memCapacity
+	}
+	q, _ := bits.Div64(hi, lo, uint64(memCapacity))
+	return 1000 - int64(q)
 }
 
 // OomAdjToMemReq estimates memory request based on OOM score adjustment.
